@@ -40,6 +40,9 @@ struct Tracked
 
   void born()
   {
+    // one operation that constructs millions of elements does not terminate in any useful sense (e.g. a container
+    // inserted into itself that keeps walking over its own insertions): reported like a hang, before memory runs out
+    if(++g_op_work > 3000000) { static const char m[] = "DRIVER-HANG: one operation constructed more than 3000000 elements\n"; (void)!write(2, m, sizeof(m) - 1); _exit(97); }
     serial = trk_next++;
     if(serial >= TRK_MAX) { fprintf(stderr, "DRIVER-ERROR: too many Tracked instances\n"); exit(3); }
     trk_state[serial] = 1; magic = 0x600DF00Du; ++trk_constructed;
